@@ -55,6 +55,7 @@ func storeValue(id string) []byte {
 		storeVals["big"] = prbytes("big-value", 20000) // larger than any buffered-writer default (C11: still exactly one write)
 		storeVals["b4093"] = prbytes("b4093", 4093)
 		storeVals["huge"] = prbytes("huge-value", 70000) // more than 64 KiB
+		storeVals["zlead"] = []byte{0, 0, 0, 0, 0, 0, 0, 1, 2, 3} // a value that begins with zero bytes (they are part of the value)
 		storeVals["d2"] = mk([3]string{"sha256", "o2", "h2"}, [3]string{"sha256", "o1", "h2"})
 	}
 	return storeVals[id]
@@ -120,9 +121,23 @@ func runVarstore(sc M) {
 		fs = fs.With(files)
 	}
 	e := fs.Open()
-	key, cert := testKey("k1"), testCert("k1", "i1", "s1")
+	// signer certificates with names of four consecutive lengths: the signed updates' descriptors end at every alignment
+	key, cert := testKey("k1"), testCert("k1", []string{"i1", "L", "Lx", "Lxx"}[num(sc, "sc")%4], "s1")
 	emit(M{"sc": id, "op": "reset", "pre": pre})
+	nops := len(list(sc, "ops"))
 	for i, o := range list(sc, "ops") {
+		if sc["second_store"] == true && i == nops/2 {
+			// another in-memory store is created, pre-populated, opened and written to while this one is in use: stores are independent
+			guard(func() error {
+				vr := storeVar("db")
+				fs2 := testfs.NewTestFS().With(fstest.MapFS{"/sys/firmware/efi/efivars/" + vr.Name + "-" + vr.GUID.Format(): &fstest.MapFile{Data: append(vr.Attributes.Bytes(), storeValue("d3")...)}})
+				e2 := fs2.Open()
+				e2.WriteVar(storeVar("db"), rawDB(storeValue("d1b")))
+				e2.WriteVar(storeVar("OsIndications"), rawDB(storeValue("dc")))
+				return nil
+			})
+			emit(M{"sc": id, "op": "otherstore", "i": i})
+		}
 		op := o.(M)
 		name, vn, val := str(op, "op"), str(op, "v"), str(op, "val")
 		signed, _ := op["signed"].(bool)
